@@ -132,15 +132,28 @@ def check_spot(o, fields, wavelengths, num_rings, distribution, cls_name='SpotDi
                     out.append(v(cls_name, 'data', f'field {i} wavelength {j} {nm} differs from the independent trace', **ctx))
     if out:
         return out
-    # reference wavelength for the centroid: the lens's primary wavelength when it is listed; any listed one otherwise
+    # reference wavelength for the centroid: the lens's primary wavelength when it is listed; the first listed one otherwise
     ri = ref_index(o, wavelengths)
-    cands = [ri] if ri is not None else list(range(len(wavelengths)))
+    cands = [ri] if ri is not None else [0]
     try:
         cen = sd.centroid()
         geo = sd.geometric_spot_radius()
         rms = sd.rms_spot_radius()
     except Exception as e:   # noqa
         return [v(cls_name, 'reference-raises', f'centroid/radius: {type(e).__name__}: {e}', primary_listed=ri is not None, **ctx)]
+    try:
+        cen2 = sd.centroid()
+    except Exception as e:   # noqa
+        return [v(cls_name, 'raises', f'second centroid(): {type(e).__name__}: {e}', **ctx)]
+    for i in range(len(fields)):
+        if not close([cen2[i][0], cen2[i][1]], [cen[i][0], cen[i][1]]):
+            out.append(v(cls_name, 'query-not-repeatable', f'field {i}: centroid() after the radius queries is {fl(cen2[i])}, before {fl(cen[i])}', **ctx))
+        for j in range(len(wavelengths)):
+            for c, nm in enumerate(('x', 'y', 'intensity')):
+                if not close(sd.data[i][j][c], spots[i][j][c]):
+                    out.append(v(cls_name, 'data-altered', f'field {i} wavelength {j}: .data {nm} is no longer the traced intersections after centroid / radius queries', **ctx))
+    if out:
+        return out
     for i in range(len(fields)):
         ok_ref = None
         nonfin = int(sum(np.sum(~(np.isfinite(sp[0]) & np.isfinite(sp[1]))) for sp in spots[i]))
@@ -191,7 +204,7 @@ def check_rms_vs_field(o, num_fields, wavelengths, num_rings, distribution):
         return [v('RmsSpotSizeVsField', 'reference-raises', f'{type(e).__name__}: {e}', primary_listed=ri is not None, **ctx)]
     out = []
     ri = ref_index(o, wl)
-    cands = [ri] if ri is not None else list(range(len(wl)))
+    cands = [ri] if ri is not None else [0]
     for i, f in enumerate(fields):
         spots = [spot_of(o, f, w, num_rings, distribution) for w in wl]
         fins = [np.isfinite(sp[0]) & np.isfinite(sp[1]) for sp in spots]
@@ -211,6 +224,10 @@ def check_rms_vs_field(o, num_fields, wavelengths, num_rings, distribution):
                          primary_listed=ri is not None, nonfinite_rays=nonfin, **ctx))
         if not close(a._field[i], f):
             out.append(v('RmsSpotSizeVsField', 'field-samples', f'sample {i}', **ctx))
+        for j in range(len(wl)):
+            if not (close(a.data[i][j][0], spots[j][0]) and close(a.data[i][j][1], spots[j][1])):
+                out.append(v('RmsSpotSizeVsField', 'data-altered', f'field sample {i} wavelength {j}: .data is not the traced intersections', **ctx))
+                break
     return out
 
 
@@ -282,7 +299,7 @@ def check_rayfan(o, fields, wavelengths, num_points):
         out.append(v('RayFan', 'samples', f'num_points {a.num_points}', **ctx))
         return out
     wp = float(o.primary_wavelength)
-    refs = [wp] if ri is not None else wl            # the primary wavelength when listed, else any listed wavelength
+    refs = [wp] if ri is not None else wl[:1]        # the primary wavelength when listed, else the first listed wavelength
     for f in fields:
         vx, vy = o.fields.get_vig_factor(f[0], f[1])
         traces = {}
@@ -654,22 +671,30 @@ def check_yybar(o):
 # lens generation and the whole property on one lens
 # ----------------------------------------------------------------------------------------------
 def c12_spec(rng, aspheres=None, finite=None, nsurf=None):
-    """rotationally symmetric refracting lens with at least two y fields.  Paraboloids (k = -1) are replaced: the tracer's
-    conic intersection loses all precision for near-axial rays on them (a property-C02 matter that would mask C12)."""
+    """rotationally symmetric refracting lens with at least two y fields; about a third get a curved image surface
+    (spec['image_radius'], applied by build())"""
     import lensgen
     asph = (rng.random() < 0.3) if aspheres is None else aspheres
     allow = ['plane', 'standard', 'conic'] + (['even_asphere'] if asph else [])
     spec = lensgen.gen_spec(rng, nsurf=nsurf or rng.choice([2, 3, 3, 4, 4, 5, 6]), allow=allow, mirrors=False, decenter=False,
                             finite_object=finite)
     for s in spec['surfaces']:
-        if s.get('conic') == -1.0:
-            s['conic'] = -0.7
         s.pop('coating', None) if rng.random() < 0.5 else None
     if len(spec['fields']) < 2 or max(f[0] for f in spec['fields']) == 0:
         mf = rng.uniform(1.0, 8.0)
         spec['fields'] = [[0.0, 0.0, 0.0, 0.0], [0.7 * mf, 0.0, 0.0, 0.0], [mf, 0.0, 0.0, 0.0]]
     spec['has_asphere'] = any(s.get('type') == 'even_asphere' for s in spec['surfaces'])
+    if rng.random() < 0.35:
+        spec['image_radius'] = rng.uniform(30.0, 150.0) * rng.choice([-1, 1])
     return spec
+
+
+def build(spec):
+    import lensgen
+    o = lensgen.build(spec)
+    if spec.get('image_radius'):
+        o.set_radius(spec['image_radius'], o.surface_group.num_surfaces - 1)
+    return o
 
 
 def explicit_lists(o, rng):
